@@ -344,3 +344,59 @@ Example C19_example_hp_default :
   let cf := hp_run hp_cfg 2 hp_progs hp_high (hp_sched ++ repeat (1, o0) 4) in
   map fst (executed (fst cf)) = [(2, 0)] /\ qs (fst cf) = [] /\ st (fst cf) 0 = rs_sleeping.
 Proof. vm_compute. repeat split; reflexivity. Qed.
+
+(* ------------------------------------------------------------------------------------------
+   Session h12b — re-queueing of a YIELDING (or woken) task with its own worker as hint: the fallback walk of
+   select_active_pu (allow_fallback = true).  Model/SuspendResumeYield.v evaluates the acceptance test with the
+   comparison operator and the constant regenerated from scheduler_base.cpp (g_sel_fb_op, g_sel_fallback). *)
+From Pika Require Import Model.SuspendResumeYield Proofs.SuspendResumeYieldProofs.
+
+(* whatever the fallback walk accepts is a unit whose scheduling loop computes running = true: a unit on its way to
+   sleep (pre_sleep), asleep, or shutting down is never accepted *)
+Theorem C19_fallback_accepts_only_running : forall s, fb_accepts s = true -> rs_lt s g_running_below = true.
+Proof. exact fallback_accepts_only_running_lemma. Qed.
+Print Assumptions C19_fallback_accepts_only_running.
+
+(* it rejects the state the suspend CAS writes and the state the worker stores before it waits ... *)
+Theorem C19_fallback_rejects_unit_being_suspended : fb_accepts g_sus_to = false /\ fb_accepts g_sleep_store = false.
+Proof. exact fallback_rejects_requested_lemma. Qed.
+Print Assumptions C19_fallback_rejects_unit_being_suspended.
+
+(* ... and accepts an active unit (non-vacuity of the test) *)
+Theorem C19_fallback_accepts_active_unit : fb_accepts g_wake_to = true /\ fb_accepts g_sus_from = true.
+Proof. exact fallback_accepts_active_lemma. Qed.
+Print Assumptions C19_fallback_accepts_active_unit.
+
+(* a task that yields on (or is woken with last worker =) a unit that has been asked to suspend is re-queued on ANOTHER,
+   available unit as soon as one active unit with a free PU lock exists — whatever the other units' states and locks *)
+Theorem C19_yield_requeue_avoids_suspending_unit : forall n g w v,
+  0 < n -> w < n -> v < n -> yst g w = g_sus_to -> ylock g v = false -> yst g v = g_wake_to ->
+  let u := select_fb n g w in u <> w /\ u < n /\ fb_avail g u = true.
+Proof. exact select_fb_other. Qed.
+Print Assumptions C19_yield_requeue_avoids_suspending_unit.
+
+(* "the calls themselves return", yielding tasks: the unit w that is being suspended holds any list l of tasks that yield
+   every time they run, nobody else pops (all other workers busy), states and locks of the others arbitrary but constant,
+   one active unit with a free lock: after |l| iterations of w's scheduling loop its queue is empty and its sleep
+   condition holds (so the caller's wait on state != pre_sleep ends), every task sits in the queue of another worker,
+   and nothing left another worker's queue *)
+Theorem C19_yielding_tasks_leave_suspending_unit : forall n w v l g,
+  yhyp n g w v -> yq g w = l ->
+  let g' := yield_iters (length l) n g w in
+  yq g' w = [] /\ y_can_sleep g' w = true /\
+  (forall a, In a l -> exists u, u <> w /\ u < n /\ In a (yq g' u)) /\
+  (forall x a, x <> w -> In a (yq g x) -> In a (yq g' x)).
+Proof. exact yielding_tasks_leave_lemma. Qed.
+Print Assumptions C19_yielding_tasks_leave_suspending_unit.
+
+(* non-vacuity: 3 workers, unit 1 asked to suspend with tasks 7, 8, 9 in its queue, unit 2's PU lock held by somebody,
+   unit 0 active with task 5: the three tasks end up behind task 5 on unit 0, unit 1 may sleep *)
+Definition yex : ystate :=
+  {| yst := fun v => if Nat.eqb v 1 then g_sus_to else g_wake_to;
+     ylock := fun v => Nat.eqb v 2;
+     yq := fun v => match v with 0 => [5] | 1 => [7; 8; 9] | _ => [] end |}.
+Example C19_example_yield :
+  yhyp 3 yex 1 0 /\ g_sel_fb_op = CmpLe /\ g_sel_fallback = rs_suspended /\
+  let g' := yield_iters 3 3 yex 1 in
+  yq g' 0 = [5; 7; 8; 9] /\ yq g' 1 = [] /\ yq g' 2 = [] /\ y_can_sleep g' 1 = true /\ y_can_sleep yex 1 = false.
+Proof. vm_compute. repeat split; auto. Qed.
